@@ -156,14 +156,6 @@ Definition sent_args (c : ccase) : option (bytes * list jb) :=
   | None => Some ([], [])
   end.
 
-Fixpoint count_bin (b : jb) : nat :=
-  match b with
-  | BBin _ => 1
-  | BArr l => fold_right (fun x a => count_bin x + a)%nat O l
-  | BObj kvs => fold_right (fun kv a => count_bin (snd kv) + a)%nat O kvs
-  | _ => O
-  end.
-
 Definition expected_header (c : ccase) (n : nat) : header :=
   let h := c_h c in
   let t := h_type h in
@@ -242,33 +234,11 @@ Definition roundtrip_header_ok (c : ccase) : bool :=
      | _, _ => false
      end.
 
-(** Go maps have no order: objects decoded into [any] are compared with their keys sorted. *)
-Fixpoint norm_b (b : jb) : jb :=
-  match b with
-  | BArr l => BArr (map norm_b l)
-  | BObj kvs => BObj (sort_keys (map (fun '(k, x) => (k, norm_b x)) kvs))
-  | _ => b
-  end.
-
 Definition roundtrip_any_ok (c : ccase) : bool :=
   if c_skip_any c then true else
   match sent_args c, c_anyd c with
   | Some (_, args), Some vals => list_eqb jb_eqb (map norm_b args) vals
   | _, _ => false
-  end.
-
-(** What a parameter of type [t] shows of the sent shape: [any] cells hold Go maps (no order). *)
-Fixpoint view_ty (t : ty) (b : jb) : jb :=
-  match t with
-  | TAny | TMapAny => norm_b b
-  | TPtr t' => view_ty t' b
-  | TSlice t' => match b with BArr l => BArr (map (view_ty t') l) | _ => b end
-  | TStruct fs =>
-    match b with
-    | BObj kvs => BObj (map (fun '(k, t') => (k, match lookup k kvs with Some x => view_ty t' x | None => BNull end)) fs)
-    | _ => b
-    end
-  | _ => b
   end.
 
 Definition roundtrip_typed_ok (c : ccase) : bool :=
@@ -295,39 +265,9 @@ Definition reencode_ok (c : ccase) : bool :=
 Definition encodable (c : ccase) : bool :=
   match encode_go 0 (c_h c) (c_v c) with Ok _ => true | _ => false end.
 
-(** A binary leaf received into an [any] cell is substituted only when it is a map entry reached
-    through arrays first and maps after (reconstructMap). *)
-Fixpoint any_ok_map (b : jb) : bool :=
-  match b with
-  | BBin _ => true
-  | BObj kvs => forallb (fun kv => any_ok_map (snd kv)) kvs
-  | BArr _ => Nat.eqb (count_bin b) 0
-  | _ => true
-  end.
-Fixpoint any_ok (b : jb) : bool :=
-  match b with
-  | BBin _ => false
-  | BArr l => forallb any_ok l
-  | BObj kvs => forallb (fun kv => any_ok_map (snd kv)) kvs
-  | _ => true
-  end.
 Definition any_family_ok (c : ccase) : bool :=
   match sent_args c with Some (_, args) => forallb any_ok args | None => true end.
 
-(** The same for the [any] cells inside a typed parameter. *)
-Fixpoint ty_ok (t : ty) (b : jb) : bool :=
-  match t with
-  | TAny => any_ok b
-  | TMapAny => match b with BObj kvs => forallb (fun kv => any_ok_map (snd kv)) kvs | _ => true end
-  | TPtr t' => ty_ok t' b
-  | TSlice t' => match b with BArr l => forallb (ty_ok t') l | _ => true end
-  | TStruct fs =>
-    match b with
-    | BObj kvs => forallb (fun '(k, t') => match lookup k kvs with Some x => ty_ok t' x | None => true end) fs
-    | _ => true
-    end
-  | _ => true
-  end.
 Definition typed_family_ok (c : ccase) : bool :=
   match sent_args c with
   | Some (_, args) =>
